@@ -160,15 +160,35 @@ Proof.
     cbn [apply_op] in R1. destruct (tip_plan_spec cx t K) as (pl & Ep & _). rewrite Ep in T.
     destruct pl as [[[qs qe] entries]|].
     + apply touchesb_P in T.
-      destruct (update_chain_tip_spec cx pre t qs qe entries Cp K Ep T) as (q' & E & Cq & P1 & P2 & _).
+      destruct (update_chain_tip_spec cx pre t qs qe entries Cp K Ep T) as (q' & E & Cq & P1 & P2 & _ & _ & _ & PV).
       rewrite E in R1. subst post. cbn [queue_after] in R2. subst sugg.
       rewrite (step_structure_chain pre q' Cq), sugg_ok_model, andb_true_r. cbn [andb].
+      apply andb_true_iff. split.
+      2:{ unfold verify_ok. destruct (expected_verify cx t) as [[vs ve]|] eqn:EV.
+          - apply forallb_forall. intros h _. destruct (in_range vs ve h) eqn:Ir.
+            + apply oprio_eqb_eq. apply PV. right. exists vs, ve. split; [reflexivity|unfold in_range in Ir; lia].
+            + destruct (oprio_eqb (rows_at (map row_of q') h) (Some Verify)) eqn:V1; [|reflexivity].
+              apply oprio_eqb_eq.
+              assert (HV : rows_at (map row_of q') h = Some Verify).
+              { destruct (rows_at (map row_of q') h) as [[]|]; cbn in V1; try discriminate; reflexivity. }
+              apply PV in HV. destruct HV as [HV|(vs' & ve' & [= <- <-] & R)]; [exact HV|unfold in_range in Ir; lia].
+          - apply forallb_forall. intros h _. replace (in_range 0 0 h) with false by (unfold in_range; lia).
+            destruct (oprio_eqb (rows_at (map row_of q') h) (Some Verify)) eqn:V1; [|reflexivity].
+            apply oprio_eqb_eq.
+            assert (HV : rows_at (map row_of q') h = Some Verify).
+            { destruct (rows_at (map row_of q') h) as [[]|]; cbn in V1; try discriminate; reflexivity. }
+            apply PV in HV. destruct HV as [HV|(vs' & ve' & X & _)]; [exact HV|discriminate X]. }
       unfold tip_ok. apply forallb_forall. intros h _. apply andb_true_iff. split.
       * destruct (is_scanned_at (map row_of q') h) eqn:S1; [|reflexivity]. apply is_scanned_at_iff. apply P1. apply is_scanned_at_iff. exact S1.
       * destruct (is_scanned_at (map row_of pre) h) eqn:S1; [|reflexivity]. apply is_scanned_at_iff in S1.
         apply orb_true_iff. left. apply is_scanned_at_iff. apply P2; [exact S1|]. intros ms Em. eapply INV; eauto.
     + unfold update_chain_tip in R1. rewrite Ep in R1. cbn [bind] in R1. subst post. cbn [queue_after] in R2. subst sugg.
       rewrite (step_structure_chain pre pre Cp), sugg_ok_model, andb_true_r. cbn [andb].
+      apply andb_true_iff. split.
+      2:{ destruct (tip_plan_verify cx t K) as (pv & Ev & Sv). rewrite Ep in Ev. injection Ev as <-.
+          unfold verify_ok. rewrite Sv. apply forallb_forall. intros h _.
+          replace (in_range 0 0 h) with false by (unfold in_range; lia).
+          destruct (oprio_eqb (rows_at (map row_of pre) h) (Some Verify)); reflexivity. }
       unfold tip_ok. apply forallb_forall. intros h _. destruct (is_scanned_at (map row_of pre) h); reflexivity.
   - (* scan_complete *)
     apply andb_true_iff in D. destruct D as (L & T). apply touchesb_P in T. apply Z.ltb_lt in L.
